@@ -267,7 +267,7 @@ def cli_batch(res, tier):
             if i % (40 if tier == 'quick' else 8) != 0:
                 continue
             prog = L.render(tree)
-            if prog is None or not prog.toks or c08.has_qprint(prog.skeleton):
+            if prog is None or not prog.toks:
                 continue
             src = L.assemble(prog, {})
             width = (0, 2, 4, 8)[n % 4]
